@@ -29,6 +29,7 @@ EXPLANATION = (
     "loop-level energy closure of a solved network (a sum over runtime results).")
 ASSUMPTIONS = [phys.POSITIVITY_TEXT, "transient=False"]
 TECHNIQUE = "per-class value numbering of component hooks vs one transcribed relation; class-attribute table checks"
+EXPLANATION += (' ' + '(R11.5, the comparison of C10 R10.1) the thermal branch residual and its derivatives, of which the duty formulas are the inverse, equal the documented relation.')
 
 
 def _hc(ix):
